@@ -164,24 +164,28 @@ fn probe(cmd: &str, args: &[String]) {
     match cmd {
         "consts" => print!("{}", vp::consts()),
         "sizing-val" => {
-            // breakpoints of len -> (enc_piece_len, piece_len, roundup) for len in 0..=max, printed as runs
+            // breakpoints of len -> (enc_piece_len, roundup) for len in 0..=max, printed as runs
             let max: u32 = args[0].parse().unwrap();
             let mut last: Option<(u32, u32)> = None; // (enc_piece_len, slot)
             let mut bad = 0u64;
-            vp::value_sizing(max, &mut |len, epl, pl, slot| {
+            let mut minslack = u64::MAX;
+            vp::value_sizing(max, &mut |len, epl, _pl, slot| {
                 // direct oracle: real encoded length must fit the slot
                 let real = vu64::encoded_len((slot / 8) as u64) as u64 + vu64::encoded_len(len as u64) as u64 + len as u64;
                 if real > slot as u64 || slot % 8 != 0 {
                     bad += 1;
-                    println!("BAD len={} slot={} real={}", len, slot, real);
+                    if bad < 20 {
+                        println!("BAD len={} slot={} real={}", len, slot, real);
+                    }
+                } else if slot as u64 - real < minslack {
+                    minslack = slot as u64 - real;
                 }
-                let _ = pl;
                 if last != Some((epl, slot)) {
                     println!("v {} {} {}", len, epl, slot);
                     last = Some((epl, slot));
                 }
             });
-            println!("end {} bad={}", max, bad);
+            println!("end {} bad={} minslack={}", max, bad, minslack);
         }
         "sizing-key" => {
             // sizing-key <file>: lines "klen voff noff" -> "k klen voff noff epl pl slot"
@@ -193,68 +197,49 @@ fn probe(cmd: &str, args: &[String]) {
                 if t.len() < 3 {
                     continue;
                 }
-                let (epl, pl, slot) = vp::key_sizing(t[0] as u32, t[1], t[2]);
-                println!("k {} {} {} {} {} {}", t[0], t[1], t[2], epl, pl, slot);
+                let mut got = (0, 0, 0);
+                vp::key_sizing(t[0] as u32, &[t[1], t[2]], &mut |vo, no, epl, pl, slot| {
+                    if vo == t[1] && no == t[2] {
+                        got = (epl, pl, slot);
+                    }
+                });
+                println!("k {} {} {} {} {} {}", t[0], t[1], t[2], got.0, got.1, got.2);
             }
         }
         "sizing-key-sweep" => {
-            // exhaustive klen 0..=max x representatives of every (voff,noff) varint width class: oracle only
+            // exhaustive klen 0..=max x representatives of every (voff,noff) varint width class.
+            // direct oracle (real encoded length <= slot) plus a digest line per klen for the model diff.
             let max: u32 = args[0].parse().unwrap();
-            let mut reps: Vec<u64> = vec![0];
-            for w in 1..=8u32 {
-                // smallest and largest multiple of 8 whose enc_len(off/8) == w, and the ones where enc_len(off) differs
-                let lo = if w == 1 { 8 } else { 8u64 << (7 * (w - 1)) };
-                let hi = ((1u64 << (7 * w)) - 1) * 8;
-                reps.push(lo);
-                reps.push(hi);
-                if lo >= 16 { reps.push(lo - 8); }
-            }
-            reps.sort();
-            reps.dedup();
+            let reps = offset_reps();
             let mut bad = 0u64;
             let mut n = 0u64;
             let mut minslack = u64::MAX;
             for klen in 0..=max {
-                for &vo in &reps {
-                    for &no in &reps {
-                        let (_epl, _pl, slot) = vp::key_sizing(klen, vo, no);
-                        let real = vu64::encoded_len((slot / 8) as u64) as u64
-                            + vu64::encoded_len(klen as u64) as u64
-                            + klen as u64
-                            + vu64::encoded_len(vo / 8) as u64
-                            + vu64::encoded_len(no / 8) as u64;
-                        n += 1;
-                        if real > slot as u64 || slot % 8 != 0 {
-                            bad += 1;
-                            if bad < 20 {
-                                println!("BAD klen={} voff={} noff={} slot={} real={}", klen, vo, no, slot, real);
-                            }
-                        } else if slot as u64 - real < minslack {
-                            minslack = slot as u64 - real;
+                let mut line = format!("K {}", klen);
+                let mut lastslot = 0u32;
+                vp::key_sizing(klen, &reps, &mut |vo, no, _epl, _pl, slot| {
+                    let real = vu64::encoded_len((slot / 8) as u64) as u64
+                        + vu64::encoded_len(klen as u64) as u64
+                        + klen as u64
+                        + vu64::encoded_len(vo / 8) as u64
+                        + vu64::encoded_len(no / 8) as u64;
+                    n += 1;
+                    if real > slot as u64 || slot % 8 != 0 {
+                        bad += 1;
+                        if bad < 20 {
+                            println!("BAD klen={} voff={} noff={} slot={} real={}", klen, vo, no, slot, real);
                         }
+                    } else if slot as u64 - real < minslack {
+                        minslack = slot as u64 - real;
                     }
-                }
+                    if slot != lastslot {
+                        line.push_str(&format!(" {}/{}:{}", vo, no, slot));
+                        lastslot = slot;
+                    }
+                });
+                println!("{}", line);
             }
             println!("end n={} bad={} minslack={} reps={}", n, bad, minslack, reps.len());
-        }
-        "buckets" => {
-            // buckets <max>: derived bucket count for BucketsSize(x) and Capacity(x), x in 1..=max (runs)
-            let max: u64 = args[0].parse().unwrap();
-            let mut lb = 0;
-            let mut lc = 0;
-            for x in 1..=max {
-                let b = vp::buckets_of_size(x);
-                let c = vp::buckets_of_capacity(x);
-                if b != lb {
-                    println!("b {} {}", x, b);
-                    lb = b;
-                }
-                if c != lc {
-                    println!("c {} {}", x, c);
-                    lc = c;
-                }
-            }
-            println!("d {}", vp::buckets_default());
         }
         _ => panic!("unknown command {cmd}"),
     }
@@ -264,9 +249,85 @@ fn probe(cmd: &str, _args: &[String]) {
     panic!("command {cmd} needs the crate built with --cfg abyssiniandb_verif");
 }
 
+/// representatives of every varint width class of an offset (multiples of 8), for both
+/// `enc_len(off)` (what the size estimate uses) and `enc_len(off / 8)` (what is written).
+pub fn offset_reps() -> Vec<u64> {
+    let mut reps: Vec<u64> = vec![0];
+    for w in 1..=9u32 {
+        for scaled in [false, true] {
+            let lo: u128 = if w == 1 { 1 } else { 1u128 << (7 * (w - 1)) };
+            let hi: u128 = if w == 9 { (1u128 << 64) - 1 } else { (1u128 << (7 * w)) - 1 };
+            for v in [lo, hi] {
+                let off: u128 = if scaled { v * 8 } else { (v + 7) / 8 * 8 };
+                let off2: u128 = if scaled { v * 8 } else { v / 8 * 8 };
+                for o in [off, off2] {
+                    if o < (1u128 << 64) && o % 8 == 0 {
+                        reps.push(o as u64);
+                    }
+                }
+            }
+        }
+    }
+    reps.sort();
+    reps.dedup();
+    reps
+}
+
+/// bucket count the crate derives, observed through a real creation (header offset 16).
+fn buckets(args: &[String]) {
+    use abyssiniandb::filedb::{FileDb, FileDbParams, HashBucketsParam};
+    let dir = std::path::PathBuf::from(&args[0]);
+    let max: u64 = args[1].parse().unwrap();
+    let step_all = args.get(2).map(|s| s == "all").unwrap_or(false);
+    let _ = std::fs::remove_dir_all(&dir);
+    let mut xs: Vec<u64> = Vec::new();
+    if step_all {
+        xs.extend(0..=max);
+    } else {
+        xs.push(0);
+        let mut p = 1u64;
+        while p <= max {
+            for d in [p.saturating_sub(1), p, p + 1, p + p / 8, p - p / 9, (p as f64 / 1.125) as u64, (p as f64 / 1.125) as u64 + 1] {
+                if d <= max {
+                    xs.push(d);
+                }
+            }
+            p *= 2;
+        }
+        xs.sort();
+        xs.dedup();
+    }
+    let observe = |p: HashBucketsParam| -> String {
+        let r = std::panic::catch_unwind(|| {
+            let db = FileDb::open(&dir).unwrap();
+            let mut params = FileDbParams::default();
+            params.buckets_size = p;
+            let m = db.db_map_bytes_with_params("b", params).unwrap();
+            drop(m);
+            drop(db);
+            let b = std::fs::read(dir.join("b.htx")).unwrap();
+            let mut a = [0u8; 8];
+            a.copy_from_slice(&b[16..24]);
+            let n = u64::from_le_bytes(a);
+            format!("{} {}", n, b.len())
+        });
+        let _ = std::fs::remove_dir_all(&dir);
+        match r {
+            Ok(s) => s,
+            Err(_) => "panic".into(),
+        }
+    };
+    std::panic::set_hook(Box::new(|_| {}));
+    for x in xs {
+        println!("b {} {}", x, observe(HashBucketsParam::BucketsSize(x)));
+        println!("c {} {}", x, observe(HashBucketsParam::Capacity(x)));
+    }
+}
+
 pub fn main(cmd: &str, args: &[String]) {
     match cmd {
         "conv" => conv(args),
+        "buckets" => buckets(args),
         _ => probe(cmd, args),
     }
 }
